@@ -283,7 +283,7 @@ def check_record_fields(ctx, inst="C13.fields"):
             ss = f.get("successor_safe")
             c = [x for x in (ss.walk() if ss is not None else []) if x.k == "const"]
             ctx.check(bool(c) and (c[0].extra or {}).get("val") in (0, False), inst, "PIN", b.path, "and with the retirement memo unset", b.where(n.id), nontrivial=False)
-    ctx.check(n_lit == 3, inst, "anchor", "-", "Record literals in record.rs (expected 3, found %d)" % n_lit, None)
+    ctx.check(n_lit >= 2, inst, "anchor", "-", "Record literals in record.rs (>= 2: a resident and a deferred constructor; found %d)" % n_lit, None)
 
 
 def check_size_functions(ctx):
